@@ -180,6 +180,18 @@ theorem C09_goroutines_reviewed :
       ("history.(*Handler).FetchIQ", false), ("muc.(*Channel).LeavePresence", true),
       ("muc.(*Channel).JoinPresence", true)] := by decide +kernel
 
+/-! ## Iterators that turn pages
+
+`Serve` hands a response to the waiting helper and reads nothing else until that response is
+closed.  An iterator whose `Next` requests the next page must therefore close the page it
+holds *before* it sends the request (otherwise the helper waits for a reply Serve will never
+read and Serve waits for a Close that never comes).  Regenerated: every request sent from a
+`Next` method and whether a `Close()` on something the iterator holds precedes it. -/
+theorem C09_page_turns_close_first :
+    (match XmppModel.Generated.C09.pageTurns with
+      | some l => !l.isEmpty && l.all (fun p => p.2.2)
+      | none => false) = true := by decide +kernel
+
 /-! ## Known finding: the SCRAM client of the SASL dependency (negotiation, before Serve)
 
 Full-strength statement (false for mellium.im/sasl v0.3.2, see `Model/ScramLoop.lean`):
